@@ -356,6 +356,42 @@ def check(case):
                 case.close(H(theta.copy()), lp + sum(wants.values()), rtol=1e-6, atol=1e-8,
                            what='fully pooled hierarchical log-posterior = prior + sum of the individuals\' '
                                 'log-likelihoods, each under its own dose events')
+        # the controller is given another dataset afterwards, one without dose information (same individuals, e.g. the
+        # control arm): no dose event of the first dataset is left
+        if 'controller_delivery' in case.checked and not case.fails:
+            with case.clause('controller_second_dataset'):
+                df2 = before[before['Observable'].notnull()][['ID', 'Time', 'Observable', 'Value']].copy()
+                ctrl2 = chi.ProblemModellingController(M, [chi.GaussianErrorModel()])
+                for c_ in (ctrl, ctrl2):
+                    c_.set_data(df if c_ is ctrl2 else df2, **(dict(dose_duration_key=dur_key) if c_ is ctrl2 else
+                                                              dict(dose_key=None, dose_duration_key=None)))
+                ctrl2.set_data(df2, dose_key=None, dose_duration_key=None)
+                for label, c_ in (('a controller with a pooled population model', ctrl), ('a fresh controller', ctrl2)):
+                    regs2 = c_.get_dosing_regimens()
+                    case.true(not regs2 or all(len(r.events()) == 0 for r in regs2.values()),
+                              'dose events are reported after a dataset without dose information was set on %s' % label)
+                    c_.set_log_prior(pints.ComposedLogPrior(*[pints.UniformLogPrior(0.0, 100.0) for _ in range(4)]))
+                    total = lp
+                    for i, ind in enumerate(s['indiv']):
+                        tm = np.array(sorted(m['t'] for m in ind['meas']), dtype=float)
+                        if len(set(tm.tolist())) < len(tm):
+                            total = None
+                            continue
+                        obs = np.array([m['v'] for m in sorted(ind['meas'], key=lambda m: m['t'])], dtype=float)
+                        amount = np.real(sbmlgen.ref_simulate(PK_MS, theta[:3], tm, ['central.drug_amount'],
+                                                              dict(comp=0, direct=True), []))[0]
+                        ll_i = float(np.sum(-0.5 * np.log(2 * np.pi) - np.log(theta[3])
+                                            - (obs - amount / theta[1]) ** 2 / (2 * theta[3] ** 2)))
+                        if total is not None:
+                            total += ll_i
+                        if c_ is ctrl2:
+                            case.close(c_.get_log_posterior(str(ids[i]))(theta.copy()), lp + ll_i, rtol=1e-6, atol=1e-8,
+                                       what='log-posterior of individual %s without doses (second dataset on %s)' % (
+                                           ids[i], label))
+                    if c_ is ctrl and total is not None:
+                        # (the population model set before stays in place: the posterior is the pooled hierarchical one)
+                        case.close(c_.get_log_posterior()(theta.copy()), total, rtol=1e-6, atol=1e-8,
+                                   what='pooled hierarchical log-posterior without doses (second dataset on %s)' % label)
         with case.clause('input_unchanged'):
             case.true(df.equals(before) and list(df.columns) == list(before.columns),
                       "the caller's data frame was modified by set_data")
@@ -441,6 +477,8 @@ def check(case):
             tms = np.array(sorted({ft, 0.5 * ft}), dtype=float)
             for n in sorted({2, max(2, min(len(want), 4))}):
                 smp = pm.sample(params.copy(), tms.copy(), n_samples=n, seed=5, include_regimen=True)
+                case.true('Dose' in smp.columns, 'doses %r are scheduled up to the final time but the sampled table has '
+                          'no dose column (n_samples=%d)' % (sorted(want), n), kind='missing_column')
                 dose_rows = smp[smp['Dose'].notnull()]
                 ids_ = sorted(set(int(v) for v in dose_rows['ID']))
                 case.equal(ids_, list(range(1, n + 1)), 'sample IDs that carry dose rows (n_samples=%d)' % n)
@@ -451,6 +489,27 @@ def check(case):
                                'scheduled %r' % (i, n, [g[0] for g in got_i], [w[0] for w in sorted(want)]))
                     case.close(np.array(got_i), np.array(sorted(want)), rtol=1e-9,
                                what='dose rows (time, duration, amount) of sample ID %d (n_samples=%d)' % (i, n))
+        # a population predictive model whose population model has covariates: the covariate rows of the sampled
+        # individuals stand next to the same dose rows
+        with case.clause('population_sample_table'):
+            d = len(params)
+            covm = chi.CovariatePopulationModel(chi.PooledModel(n_dim=1), chi.LinearCovariateModel(n_cov=2))
+            popm = chi.ComposedPopulationModel([chi.PooledModel(n_dim=d - 1), covm]) if d >= 2 else covm
+            ppm = chi.PopulationPredictiveModel(pm, popm)
+            pp = np.concatenate([params, np.zeros(ppm.n_parameters() - d)])
+            for n, cv in ((2, np.array([0.7, -1.2])), (3, np.array([[0.7, 1.0], [0.1, 2.0], [-0.4, 3.0]]))):
+                smp = ppm.sample(pp.copy(), tms.copy(), n_samples=n, seed=5, include_regimen=True, covariates=cv.copy())
+                case.true('Dose' in smp.columns, 'doses %r are scheduled up to the final time but the sampled table has '
+                          'no dose column (n_samples=%d)' % (sorted(want), n), kind='missing_column')
+                dose_rows = smp[smp['Dose'].notnull()]
+                for i in range(1, n + 1):
+                    sub = dose_rows[dose_rows['ID'] == i]
+                    got_i = sorted((float(a), float(b), float(c)) for a, b, c in sub[['Time', 'Duration', 'Dose']].values)
+                    case.equal(len(got_i), len(want), 'number of dose rows of sample ID %d of a population predictive '
+                               'model with covariates (n_samples=%d): times %r, scheduled %r' % (
+                                   i, n, [g[0] for g in got_i], [w[0] for w in sorted(want)]))
+                    case.close(np.array(got_i), np.array(sorted(want)), rtol=1e-9,
+                               what='dose rows of sample ID %d of a population predictive model with covariates' % i)
         # an averaged model over two different posterior predictive models: the regimen set through it reaches both
         if s['protocol'] is None:
             with case.clause('averaged_regimen'):
